@@ -139,20 +139,26 @@ class Engine:
     def register(self, spec: Spec):
         f = resolve(spec.target)
         spec.func = f
-        self.specs[id(f)] = (f, spec)
+        self.specs.setdefault(id(f), []).append((f, spec))
         w = getattr(f, "__wrapped__", None)
         if w is not None:
-            self.specs[id(w)] = (w, spec)
+            self.specs.setdefault(id(w), []).append((w, spec))
         return spec
 
     def spec_for(self, f):
         try:
-            ent = self.specs.get(id(f))
+            ents = self.specs.get(id(f))
         except Exception:
             return None
-        if ent is not None and ent[0] is f:
-            return ent[1]
-        return None
+        if not ents:
+            return None
+        best = None
+        for g, sp in ents:
+            if g is f:
+                if sp.can_apply() and sp is not self.current:
+                    return sp
+                best = best or sp
+        return best
 
     def is_current_target(self, f, it):
         """the function under verification is executed (not replaced by its contract) at depth 0"""
